@@ -361,7 +361,7 @@ impl Check for C14 {
     fn n_cases(&self, tier: Tier) -> u64 {
         let k = kinds::C14_KINDS.len() as u64;
         match tier {
-            Tier::Quick => 24 * k,
+            Tier::Quick => 60 * k,
             Tier::Thorough => 2500 * k,
         }
     }
